@@ -81,14 +81,15 @@ def exclTags (ps : PState) (toks : List String) : List String × Bool :=
       | some (_, x), some (bid, y), some rid =>
         (rid == bid || (match reuse with | some r => overlaps r y | none => false)) && ((isCmp && same) || (!isCmp && (x.requiresIterator || y.requiresIterator || x.ap.o.col != y.ap.o.col)))
       | _, _, _ => false
-    -- F10 (same root cause, incr destinations): the increment tensor shares storage cells with an operand through a
+    -- F10 (same root cause, every kind of destination - incr, reuse, the first operand of an unsafe call): the destination shares storage cells with an operand through a
     -- *different* access pattern (e.g. the operand is the reshaped parent of the destination view): the in-place
     -- loop reads operand cells it has already incremented
     let samePattern (p q : Dense) : Bool := p.win.off == q.win.off && p.win.len == q.win.len && p.ap.shape == q.ap.shape && p.ap.strides == q.ap.strides
     let incrDst := (opts.find? (·.startsWith "incr=")).bind (fun t => (ps.obj (t.drop 5).toString).map (·.2))
-    let f10 := f10 || (match incrDst with
+    let unsDst := if uns then (match oa with | some (_, x) => some x | none => none) else none
+    let f10 := f10 || ([incrDst, unsDst, reuse].any (fun dst => match dst with
       | some d => [oa, ob].any (fun o => match o with | some (_, x) => overlaps d x && !samePattern d x | none => false)
-      | none => false)
+      | none => false))
     -- F32: incr mode with one-element operands: `Vec<Op>(a, b)` clobbers the first operand
     let oneCell (o : Option (Nat × Dense)) (tok : String) := match o with | some (_, d) => d.win.len == 1 || isScalar d.shape | none => tok.startsWith "#"
     let f32 := incr && oneCell oa a && oneCell ob b && !isCmp
@@ -128,6 +129,7 @@ def exclTags (ps : PState) (toks : List String) : List String × Bool :=
       ((if Excl_transposeShared (otherLive ps id) t then ["F39"] else []) ++
        (if Excl_transposeVectorStrides t then ["F28"] else []) ++
        (if Excl_reshapeLongWindow t then ["F16"] else []) ++
+       (if Excl_reshapeStrides t then ["F97"] else []) ++
        (if Excl_transposeView t then ["F5"] else []) ++ (if Excl_transposeCol t then ["F6"] else []) ++
        (if Excl_shortStrides t then ["F24"] else []), true)
     | _ => ([], false)
